@@ -24,7 +24,18 @@ REPORTED = ['ValueError', 'KeyError', 'TypeError', 'RuntimeError', 'OSError', 'E
 NOT_EXCEPTION = ['KeyboardInterrupt', 'SystemExit', 'GeneratorExit', 'BaseException']
 DIES = ['os_exit', 'sigkill', 'sigterm']
 KILLS = ['after_fork', 'in_callee', 'mid_send']
-KW_POOL = [{}, {'a': 1}, {'a': [1, 2, {'b': None}], 'c': 'x'}, {'n': -5, 's': 'é', 't': [True, 2.5]}]
+KW_POOL = [{}, {'a': 1}, {'a': [1, 2, {'b': None}], 'c': 'x'}, {'n': -5, 's': 'é', 't': [True, 2.5]},
+           # names of parameters / locals of the implementation itself: they are inputs like any other keyword
+           {'args': 1, 'kwargs': {'x': 2}}, {'a': 0, 'kw_args': 1, 'target': 2}, {'self': 1, 'duplex': True, 'fd': 3},
+           {'event': 1, 'loop': 2, 'rx': 3, 'result': 4, 'process': 5, 'ex': 6, 'res': 7, 'event_loop': 8}]
+KW_COLLIDING = [{'func': 1}, {'tx': 2}, {'fun': 3}, {'fun': None, 'a': 1}, {'func': 'f', 'tx': 0}]
+MSG_K1 = ('the awaiting task raises the exception stored in the SubprocessError its callee RETURNED where the statement '
+          'demands the callee\'s return value')
+LEAKS = ('pipe end of the invocation still open in the parent when the await hands over the outcome',
+         'child process not reaped when the await hands over the outcome')
+LEAK_RX = (r'^[+]\d+ open file descriptors in the parent after all awaits returned \(after gc\)$',
+           r'^\d+ child process\(es\) of the parent left \(running or zombie\) after all awaits returned$',
+           r'^multiprocess\.active_children\(\) still lists \d+ process\(es\)$')
 CODE = {0: 'no outcome (hang)', 1: 'returns its own callee\'s value', 2: 'returns some other value', 3: 'raises its own callee\'s exception',
         4: 'raises the exception stored in the SubprocessError its callee RETURNED', 5: 'raises another exception',
         6: 'raises the exception of ANOTHER invocation', 7: 'returns the value of ANOTHER invocation'}
@@ -34,13 +45,18 @@ DEMAND = {1: 'the callee\'s return value', 2: 'the callee\'s exception', 3: 'Run
 
 def mk(rng, **k):
     d = {'out': 'ok', 'exc': EXC['ValueError'], 'die': 'os_exit', 'big': False, 'pick': True, 'async': False, 'reterr': False,
-         'kill': 'none', 'via': 'func', 'dur': 0, 'ticks': False, 'nonce': rng.randrange(10 ** 6), 'kw': rng.choice(KW_POOL)}
+         'kill': 'none', 'via': 'func', 'dur': 0, 'ticks': False, 'nonce': rng.randrange(10 ** 6), 'kw': rng.choice(KW_POOL),
+         'unp': False}
     d.update(k)
     if d['kill'] == 'mid_send':
         d['big'] = True
     if d['kill'] == 'after_fork':
         d['dur'] = max(d['dur'], 40)     # the callee cannot have reported before the kill lands
     return d
+
+
+def kw_class(inv):
+    return 'KWParent' if 'func' in inv['kw'] else ('KWChild' if set(inv['kw']) & {'tx', 'fun'} else 'KWNone')
 
 
 def coq_case(inv, r):
@@ -54,7 +70,8 @@ def coq_case(inv, r):
         obs = f'(FRaise (XCls {coq_list([coq_nat(x) for x in opath])}))'
     killed = bool(r.get('killed')) if r else False
     return (f'eval_case {out} {path} {coq_bool(inv["big"])} {coq_bool(inv["pick"])} {coq_bool(inv["async"])} '
-            f'{coq_bool(inv["reterr"])} {kill} {coq_bool(killed)} {obs}')
+            f'{coq_bool(inv["reterr"])} {coq_bool(bool(inv.get("unp")) and inv["pick"])} {kw_class(inv)} {kill} '
+            f'{coq_bool(killed)} {obs}')
 
 
 # ---- generators ---------------------------------------------------------------------------------------------------------
@@ -82,6 +99,16 @@ def gen_single(rng, tier, scale):
             invs.append(mk(rng, out=out, pick=False, big=rng.random() < 0.3, **{'async': asy}))
             for kill in KILLS:
                 invs.append(mk(rng, out=out, kill=kill, via=rng.choice(['func', 'deco']), **{'async': asy}))
+    # the payload pickles in the child but cannot be unpickled in the parent (known finding C17-K2)
+    for out in ('ok', 'raise'):
+        for asy in both:
+            invs.append(mk(rng, out=out, unp=True, big=rng.random() < 0.3, via=rng.choice(['func', 'deco']), **{'async': asy}))
+    invs.append(mk(rng, unp=True, kill='in_callee'))
+    invs.append(mk(rng, unp=True, out='die'))
+    # keyword names that collide with the implementation's own parameters (known findings C17-K3 / C17-K4)
+    for kw in KW_COLLIDING:
+        invs.append(mk(rng, kw=kw, via='func'))
+        invs.append(mk(rng, kw=kw, via='deco', out=rng.choice(['ok', 'raise']), **{'async': True}))
     invs.append(mk(rng, out='die', big=True))
     invs.append(mk(rng, out='die', kill='after_fork'))
     # malformed: outside what any implementation can pass through unchanged / the envelope collision
@@ -105,7 +132,11 @@ def random_inv(rng, crash=0.35):
         if rng.random() < 0.6:
             return mk(rng, **k)
         return mk(rng, out='raise', exc=EXC[rng.choice(REPORTED)], **k)
-    what = rng.choice(['die', 'die', 'notexc', 'unpick', 'kill', 'kill', 'kill', 'stopiter', 'reterr'])
+    what = rng.choice(['die', 'die', 'notexc', 'unpick', 'kill', 'kill', 'kill', 'stopiter', 'reterr', 'unp', 'kwname'])
+    if what == 'unp':
+        return mk(rng, out=rng.choice(['ok', 'raise']), unp=True, **k)
+    if what == 'kwname':
+        return mk(rng, out=rng.choice(['ok', 'ok', 'raise']), kw=rng.choice(KW_COLLIDING), **k)
     if what == 'die':
         return mk(rng, out='die', die=rng.choice(DIES), **k)
     if what == 'notexc':
@@ -186,7 +217,11 @@ def judge_inv(inv, r, m):
             corr = 'the model exits with a descriptor or child left'
         elif [code, r['final'][1]] != [m_kind, m_path]:
             faithful = (inv['out'] == 'ok' and code == 1) or (inv['out'] == 'raise' and code == 3)
-            if not (inv['kill'] in ('mid_send', 'after_fork') and faithful):    # the whole message got through before the death
+            unp_standin = (m_kind == 5 and m_path == [0, 31] and code == 5
+                           and r['final'][1][:2] not in ([0, 11], [0, 12]))   # any class the handler does not catch
+            if unp_standin:
+                pass
+            elif not (inv['kill'] in ('mid_send', 'after_fork') and faithful):    # the whole message got through before the death
                 corr = f'implementation {show(r["final"])}, model {show([m_kind, m_path])}'
     return fails, corr
 
@@ -242,12 +277,26 @@ class Runner:
         return out
 
 
-def matcher(finding, case):
+def matcher(finding, case, whats=None):
+    """narrow: the SHRUNK case is one invocation of the finding's input region AND the list of failures is exactly the
+    finding's own failure - anything else on such an input (a hang, a leak, wrong arguments ...) stays a violation"""
+    import re
     m = finding.get('matcher', {})
+    invs = case.get('invs', [])
+    if len(invs) != 1 or whats is None:
+        return False
+    i = invs[0]
+    plain = i['pick'] and i['kill'] == 'none' and not i.get('unp')
     if m.get('id') == 'callee_returns_subprocess_error':
-        invs = case.get('invs', [])
-        return (len(invs) == 1 and invs[0]['reterr'] and invs[0]['out'] == 'ok' and invs[0]['pick']
-                and invs[0]['kill'] == 'none')
+        return i['reterr'] and i['out'] == 'ok' and plain and kw_class(i) == 'KWNone' and list(whats) == [MSG_K1]
+    if m.get('id') == 'payload_cannot_be_unpickled_in_parent':
+        ok_in = (i.get('unp') and i['pick'] and i['out'] in ('ok', 'raise') and not i['reterr'] and kw_class(i) == 'KWNone')
+        return bool(ok_in and whats and all(w in LEAKS or any(re.match(rx, w) for rx in LEAK_RX) for w in whats))
+    if m.get('id') == 'keyword_named_like_parameter':
+        cls = kw_class(i)
+        exc = {'KWParent': 'TypeError', 'KWChild': 'ChildProcessError'}.get(cls)
+        return (cls == m.get('class') and plain and not i['reterr'] and len(whats) == 1
+                and whats[0].startswith(f'the awaiting task raises another exception ({exc}) where the statement demands the callee'))
     return False
 
 
